@@ -67,7 +67,7 @@ theorem compileFn_gfrag_run (f2 : Nat) (fd : FnDef) (cs : CState) (bsp : Span) (
     (oe : Option Expr)
     (hbody : fd.body = .mk bsp bty stmts oe) (hparams : ∀ p ∈ fd.params, p.isSingleton = false)
     (hann : fd.hasAnnotation = false) (hloops : cs.loops = [])
-    (hs : Frag.okGSs false stmts = true) (he : ∀ e, oe = some e → Frag.okGE e = true)
+    (hs : Frag.okGSs false true stmts = true) (he : ∀ e, oe = some e → Frag.okGE e = true)
     (hd : Frag.cdSs stmts ≤ f2) (hde : ∀ e, oe = some e → Frag.cdE e ≤ f2)
     (hws : Frag.wsGSs cs.currModule fd.name (φOf (fnBase cs fd)) [] stmts (partsOf cs fd stmts oe).envB = true)
     (hwe : ∀ e, oe = some e → Frag.wsGE (partsOf cs fd stmts oe).envS.scopes (φOf (fnBase cs fd)) e = true) :
@@ -111,7 +111,8 @@ theorem compileFn_gfrag_run (f2 : Nat) (fd : FnDef) (cs : CState) (bsp : Span) (
       simp only [hsc]
       rfl
   have hL : loopsOf cs.loops = [] := by rw [hloops]; rfl
-  have hSs := (compile_gstmt f2).2.1 stmts (fnBase cs fd) cs.loops rfl (by rw [hloops]; exact hs) hd
+  have hSs := (compile_gstmt f2).2.1 stmts (fnBase cs fd) cs.loops false true (fun _ => rfl)
+    (by intro h; cases h) hs hd
     ([] ++ [(.addMp 0, fd.sp)] ++ (partsOf cs fd stmts oe).pcode) (partsOf cs fd stmts oe).envB
     (by rw [hL]; exact hws)
   rw [hL] at hSs
@@ -235,7 +236,7 @@ theorem compileFn_gfrag (f2 : Nat) (fd : FnDef) (cs : CState) (bsp : Span) (bty 
     (oe : Option Expr)
     (hbody : fd.body = .mk bsp bty stmts oe) (hparams : ∀ p ∈ fd.params, p.isSingleton = false)
     (hann : fd.hasAnnotation = false) (hloops : cs.loops = [])
-    (hs : Frag.okGSs false stmts = true) (he : ∀ e, oe = some e → Frag.okGE e = true)
+    (hs : Frag.okGSs false true stmts = true) (he : ∀ e, oe = some e → Frag.okGE e = true)
     (hd : Frag.cdSs stmts ≤ f2) (hde : ∀ e, oe = some e → Frag.cdE e ≤ f2)
     (hws : Frag.wsGSs cs.currModule fd.name (φOf (fnBase cs fd)) [] stmts (partsOf cs fd stmts oe).envB = true)
     (hwe : ∀ e, oe = some e → Frag.wsGE (partsOf cs fd stmts oe).envS.scopes (φOf (fnBase cs fd)) e = true) :
